@@ -667,9 +667,10 @@ class Lowerer:
                 self.lower_fn(g)
                 self.fn_order.append(g)
         except Unsupported:
-            for k in set(self.fns) - mark_fns:
-                self.by_cname.pop(self.fns[k].cname, None)
-                del self.fns[k]
+            for k in (set(self.fns) - mark_fns) | {f.node['id']}:
+                if k in self.fns:
+                    self.by_cname.pop(self.fns[k].cname, None)
+                    del self.fns[k]
             del self.fn_order[mark_order:]
             raise
         finally:
@@ -1968,6 +1969,8 @@ class Lowerer:
         members = [c for rec in recs for c in rec.get('inner', [])]
         exact = [c for c in members if c.get('kind') == 'CXXConstructorDecl' and c['type']['qualType'] == sig]
         cands = exact or [c for c in members if c.get('kind') == 'CXXConstructorDecl' and strip_const_deep(c['type']['qualType']) == nsig]
+        # several const-variant specializations share one C struct: prefer a constructor that was instantiated
+        cands.sort(key=lambda c: 0 if Index.has_body(self.idx.definition(c['id']) or c) else 1)
         for c in cands + [c for c in members if c.get('kind') == 'FunctionTemplateDecl']:
             if c.get('kind') == 'CXXConstructorDecl':
                 d = self.idx.definition(c['id'])
